@@ -3,10 +3,12 @@ package main
 import (
 	"encoding/binary"
 	"encoding/hex"
+	"fmt"
 
 	"github.com/virel-project/virel-blockchain/v3/address"
 	"github.com/virel-project/virel-blockchain/v3/bitcrypto"
 	"github.com/virel-project/virel-blockchain/v3/checkpoints"
+	"github.com/virel-project/virel-blockchain/v3/config"
 	"github.com/virel-project/virel-blockchain/v3/transaction"
 	"github.com/zeebo/blake3"
 )
@@ -18,6 +20,15 @@ func b2s(b bool) string {
 	return "false"
 }
 
+// byteList prints a string as a Coq list of byte codes without needing list notations
+func byteList(s string) string {
+	out := "nil"
+	for i := len(s) - 1; i >= 0; i-- {
+		out = fmt.Sprintf("(cons %d %s)", s[i], out)
+	}
+	return out
+}
+
 func extraImpl(p func(string, any)) {
 	p("base_overhead", uint64(transaction.VerifBaseOverhead))
 	p("output_overhead", uint64(transaction.VerifOutputOverhead))
@@ -26,6 +37,8 @@ func extraImpl(p func(string, any)) {
 	p("addr_size", uint64(address.SIZE))
 	p("pubkey_size", uint64(bitcrypto.PUBKEY_SIZE))
 	p("signature_size", uint64(bitcrypto.SIGNATURE_SIZE))
+	p("wallet_prefix", byteList(config.WALLET_PREFIX))
+	p("delegate_prefix", byteList(config.DELEGATE_ADDRESS_PREFIX))
 	bin := checkpoints.VerifBin()
 	p("cp_bin_len", uint64(len(bin)))
 	p("cp_interval", checkpoints.CheckpointInterval)
